@@ -8,10 +8,12 @@ for f in helpers/*.c; do cc -O1 -o ".cache/helpers/$(basename "$f" .c)" "$f"; do
 # Coq: full .vo build of the whole development
 cd coq
 coq_makefile -f _CoqProject $(find theories -name '*.v' | sort) -o Makefile >/dev/null
-find theories -name '*.v' | sort > .files.stamp.tmp; tr '\n' '\n' < .files.stamp.tmp | sed '$!b' > /dev/null; rm -f .files.stamp.tmp .files.stamp
+rm -f .files.stamp
 timeout 3000 make -j16 -k >/dev/null 2>&1 || echo "setup: some Coq files failed to build (the checks will report which)"
 cd ..
+sed "s#@REPO@#${CICADA_REPO:-/repo}#" harness/Cargo.toml.in > harness/Cargo.toml
 # Rust: harness binaries + cicada (hooks on) from /repo's working tree
-(cd harness && CARGO_TARGET_DIR=/verif/.cache/target RUSTFLAGS="--cfg cicada_verif" cargo build --offline --bins 2>&1 | tail -2)
-(cd "${CICADA_REPO:-/repo}" && CARGO_TARGET_DIR=/verif/.cache/target RUSTFLAGS="--cfg cicada_verif" cargo build --offline --bin cicada 2>&1 | tail -2)
+T="$PWD/.cache/target"
+(cd harness && CARGO_TARGET_DIR="$T" RUSTFLAGS="--cfg cicada_verif" cargo build --offline --bins 2>&1 | tail -2)
+(cd "${CICADA_REPO:-/repo}" && CARGO_TARGET_DIR="$T" RUSTFLAGS="--cfg cicada_verif" cargo build --offline --bin cicada 2>&1 | tail -2)
 echo "setup done"
